@@ -2,6 +2,57 @@
 import lib
 
 
+def _validate_trace(ctx, r, trace):
+    """The events recorded by the H4 hooks during the C33 runs (RunStart, RunFailed, Install, MarkDone, Notify and every
+    HTTP / RTR read) must be a behaviour of Trace_Serve.tla: nothing is installed, marked or notified between RunStart and
+    RunFailed, and every read sees the serial of the last Install."""
+    import os
+    import re
+    import shutil
+    if not os.path.exists(trace) or os.path.getsize(trace) == 0:
+        raise lib.ToolError("the C33 runs recorded no trace")
+    env = {"TRACE": trace, "JAVA_TOOL_OPTIONS": "-Xss1g -Dtlc2.tool.queue.IStateQueue=StateDeque"}
+    t = lib.tlc(ctx, "trace_c33", "Trace_Serve.tla", "Trace_Serve.cfg", workers=1, timeout=1500, env_extra=env,
+                expect_ok=False, count=False, cacheable=False)
+    with open(t["out"], errors="replace") as f:
+        out = f.read()
+    accepted = t["rc"] == 0 and "No error has been found" in out and "TRACE-REJECTED" not in out
+    if not accepted and "TRACE-REJECTED" not in out:
+        raise lib.ToolError("TLC could not validate the trace (rc=%s): %s" % (t["rc"], out[-300:].replace("\n", " ")))
+    with open(trace) as f:
+        lines = f.read().splitlines()
+    notes = r.setdefault("notes", {})
+    notes["trace_events"] = len(lines)
+    notes["trace_failed_runs"] = sum(1 for l in lines if '"ev":"RunFailed"' in l)
+    notes["trace_accepted"] = accepted
+    if notes["trace_failed_runs"] == 0:
+        raise lib.ToolError("the recorded trace holds no failed run")
+    if not accepted:
+        m = re.search(r"TRACE-REJECTED.*", out)
+        keep = os.path.join(lib.REPLAYS, "C33-trace-%d.ndjson" % ctx.seed)
+        os.makedirs(lib.REPLAYS, exist_ok=True)
+        shutil.copyfile(trace, keep)
+        r.setdefault("violations", []).append({
+            "sig": "trace-rejected", "detail": "the recorded execution of the update cycles is not a behaviour of Trace_Serve.tla: "
+            + (m.group(0)[:400] if m else out[-400:]), "behaviour": {"trace_file": keep}, "observed": {}})
+        return
+    # teeth: an Install smuggled into a failed run must be rejected
+    bad = ctx.path("c33_trace_corrupt.ndjson")
+    done = False
+    with open(bad, "w") as f:
+        for l in lines:
+            if not done and '"ev":"RunFailed"' in l:
+                f.write(re.sub(r'"ev":"RunFailed"', '"ev":"Install","serial":9,"ndeltas":1,"changed":1', l) + "\n")
+                done = True
+            f.write(l + "\n")
+    t2 = lib.tlc(ctx, "trace_c33_corrupt", "Trace_Serve.tla", "Trace_Serve.cfg", workers=1, timeout=600, env_extra=dict(env, TRACE=bad),
+                 expect_ok=False, count=False, cacheable=False)
+    with open(t2["out"], errors="replace") as f:
+        if "TRACE-REJECTED" not in f.read():
+            raise lib.ToolError("a trace with an Install inside a failed run is accepted by Trace_Serve.tla: no teeth")
+    notes["corrupted_trace_rejected"] = True
+
+
 def _run(ctx):
     pid = ctx.pid
     lib.tlc(ctx, "mc_runloop", "MC_RunLoop.tla", "MC_RunLoop_thorough.cfg" if ctx.thorough else "MC_RunLoop.cfg", workers=2, timeout=1200)
@@ -42,8 +93,11 @@ def _run(ctx):
     n = lib.extract_replays(gen["out"], beh)
     if n == 0:
         raise lib.ToolError("no behaviours exported by Gen_RunLoop")
-    res = lib.vh(ctx, "runloop", beh, props=[pid], timeout=3000)
+    trace = ctx.path("c33_trace.ndjson")
+    res = lib.vh(ctx, "runloop", beh, props=[pid], opts={"trace": trace} if pid == "C33" else None, timeout=3000)
     r = res["per_property"][pid]
+    if pid == "C33":
+        _validate_trace(ctx, r, trace)
     if pid == "C34" and r.get("distinct_nontrivial", 0) == 0:
         raise lib.ToolError("no non-trivial row of the refresh table was realised: " + "; ".join(r.get("divergences", [])[:2]))
     if r.get("notes", {}).get("child_errors", 0) > 0:
